@@ -218,7 +218,9 @@ class Machine:
 
     def _color_matrix_light(self) -> None:
         light = self._get_named_light()
-        if light is not None and isinstance(light, MatrixLight):
+        if (light is not None and isinstance(light, MatrixLight)
+                and light.get_height() is not None
+                and light.get_width() is not None):
             matrix = self._reg.matrix
             matrix = self._as_raw_matrix(matrix)
             matrix.find_replace(None, self._reg.default or [0, 0, 0, 0])
@@ -411,6 +413,11 @@ class Machine:
         else:
             height = light.get_height()
             width = light.get_width()
+            if height is None or width is None:
+                # The light never answered the question about its size.
+                logging.error(
+                    'Size of matrix light "{}" is unknown.'.format(name))
+                height = width = 255
         self._reg.matrix = ColorMatrix.new_from_constant(height, width, None)
 
     def _nop(self) -> None: pass
